@@ -56,6 +56,17 @@ func (fsm *FSM) sessionExpiration() time.Duration {
 	return fsm.sessionExpirationDur
 }
 
+// restoreSessionExpiration takes over the session expiration of a state that
+// was just loaded from a snapshot: the Config message which set it is part of
+// the state and will not be applied again.
+func (fsm *FSM) restoreSessionExpiration(i *ircserver.IRCServer) {
+	i.ConfigMu.RLock()
+	defer i.ConfigMu.RUnlock()
+	fsm.sessionExpirationMu.Lock()
+	defer fsm.sessionExpirationMu.Unlock()
+	fsm.sessionExpirationDur = time.Duration(i.Config.SessionExpiration)
+}
+
 // sendMessages appends the specified batch of messages to the output,
 // marking them as a response to the incoming message with id 'id' and
 // associating them with session 'session'. IRC clients will
@@ -469,6 +480,7 @@ func (fsm *FSM) decodeProtobuf(b *bufio.Reader) error {
 			}
 			log.Printf("storing RobustState as index %d\n", lastIncludedIndex)
 			fsm.lastSnapshotState[lastIncludedIndex] = state
+			fsm.restoreSessionExpiration(ircServer)
 			continue
 		}
 
@@ -517,6 +529,7 @@ func (fsm *FSM) decodeJson(b *bufio.Reader) error {
 			}
 			log.Printf("storing RobustState as index %d\n", lastIncludedIndex)
 			fsm.lastSnapshotState[lastIncludedIndex] = state
+			fsm.restoreSessionExpiration(ircServer)
 			continue
 		}
 
